@@ -68,12 +68,15 @@ def _replay_obs(mod, v, seed, tier="quick"):
     """re-execute one counterexample: first the single case on fresh objects; if that does not
     reproduce (the failure depends on what the shard did before, e.g. state leaking between
     calls on one Grid), the shard that produced it is re-run and the case picked out."""
+    reset = getattr(mod, "reset", lambda: None)  # optional: restore argument objects a check shares between its cases
     rec = Rec()
+    reset()
     mod.replay_case(v["case"], seed, rec)
     if not rec.viol and v.get("shard") is not None:
         try:
             rec2 = Rec()
             rec2.MAXVIOL = 10 ** 6
+            reset()
             mod.run_shard(_tuplify(v["shard"]), v.get("tier", tier), seed, rec2)
             rec2.viol = [w for w in rec2.viol if w["sub"] == v["sub"] and w["cls"] == v["cls"] and w["case"] == v["case"]]
             for w in rec2.viol:
@@ -82,6 +85,7 @@ def _replay_obs(mod, v, seed, tier="quick"):
                 rec = rec2
             elif v.get("worker_history"):
                 # last resort: everything the worker process had executed before, in order
+                reset()
                 for sh in v["worker_history"]:
                     mod.run_shard(_tuplify(sh), v.get("tier", tier), seed, Rec())
                 rec3 = Rec()
